@@ -61,3 +61,44 @@ def conv_native(P, ks, a):
         fail('a representable integer was rejected or changed by the compiled conversion', ctx, exc, back)
     if not ok and (exc != 'TypeError' or back):
         fail('an unrepresentable argument was not rejected with TypeError by the compiled conversion', ctx, exc, back)
+
+
+def leaf_native(P, ks, a):
+    """replay of an E2 leaf-kernel counterexample through the public API of the compiled family's Bucket"""
+    from engine import shapes
+    fam, n = P['family'], P['n']
+    cl = shapes.classes(fam, 'c')
+    keys = [a['k%d' % i] for i in range(n)]
+    arg = a['n']
+    b = cl['Bucket']()
+    b.__setstate__((tuple(x for i, k in enumerate(keys) for x in (k, i + 1)),))
+    ctx = {'harness': 'leaf_native', 'family': fam, 'kernel': P['kernel']}
+    st0 = b._p_state
+    if P['kernel'] == 'leaf_get':
+        want = dict(zip(keys, range(1, n + 1))).get(arg, 'absent')
+        try:
+            got = b.get(arg, 'absent') if P['has_key'] == 0 else (arg in b)
+        except Exception as e:      # noqa
+            got = type(e).__name__
+        exp = want if P['has_key'] == 0 else (want != 'absent')
+        if got != exp:
+            fail('compiled leaf lookup differs from the sorted-map model', ctx, keys, arg, got, exp)
+    else:
+        low, ex = P['low'], P['exclude']
+        try:
+            got = list(b.keys(arg, None, bool(ex), False)) if low else list(b.keys(None, arg, False, bool(ex)))
+        except Exception as e:      # noqa
+            got = type(e).__name__
+        try:
+            if low:
+                exp = [k for k in keys if (k > arg if ex else k >= arg)]
+            else:
+                exp = [k for k in keys if (k < arg if ex else k <= arg)]
+        except TypeError:
+            exp = got
+        if not isinstance(arg, int) or abs(arg) >= 2 ** 64:
+            exp = got if isinstance(got, str) else exp
+        if got != exp:
+            fail('compiled leaf range end differs from the model', ctx, keys, arg, got, exp)
+    if b._p_state != st0:
+        fail('the leaf is left in another persistence state (pin not released)', ctx, st0, b._p_state)
